@@ -1,5 +1,6 @@
 """C07 — Only legal Hamiltonian terms with positive weight are ever stored."""
 from checks import big_scale
+from checks import fault_inj
 from checks import pure_fns
 from checks import extra_audits
 from checks import api_cov
@@ -80,4 +81,6 @@ def main(ck):
     big_scale.run(ck, "manybonds")   # large-scale regime (>65536 bonds/ops/slots, release semantics): model-free oracles of the property statements
     if ck.tier == "thorough":
         big_scale.run(ck, "hubstar")
+    fault_inj.run(ck, "ising")   # fault injection: a public call that panics part-way (bad beta, failing rng/Hamiltonian/callback) under catch_unwind; a surviving object must satisfy the property oracles
+    fault_inj.run(ck, "generic")   # fault injection: a public call that panics part-way (bad beta, failing rng/Hamiltonian/callback) under catch_unwind; a surviving object must satisfy the property oracles
     return ck.finish(RULE)
